@@ -176,12 +176,22 @@ type Raw struct {
 	readErr error
 	pumpGen  int
 	pumpDone chan struct{}
+
+	HandshakeErr error
 }
 
 // Dial connects a raw client.
-func (s *Server) Dial() *Raw {
+func (s *Server) Dial() *Raw { return s.DialArm(nil) }
+
+// DialArm is Dial with a hook that runs on the server endpoint before the
+// server starts using it (to arm faults).
+func (s *Server) DialArm(arm func(sv *vconn.Conn)) *Raw {
 	log := &vconn.Log{}
-	c, sv := s.Ln.Dial("client", "server", log)
+	c, sv := vconn.Pipe("client", "server", log)
+	if arm != nil {
+		arm(sv)
+	}
+	s.Ln.Inject(sv)
 	r := &Raw{C: c, S: sv, Log: log, rw: c}
 	r.cond = sync.NewCond(&r.mu)
 	r.pumpDone = make(chan struct{})
@@ -190,15 +200,25 @@ func (s *Server) Dial() *Raw {
 }
 
 // DialTLS connects with implicit TLS (the server side is wrapped by tls.Server).
-func (s *Server) DialTLS() (*Raw, error) {
+func (s *Server) DialTLS() (*Raw, error) { return s.DialTLSArm(nil) }
+
+// DialTLSArm is DialTLS with a fault-arming hook; on a handshake failure the
+// Raw is still returned (with HandshakeErr set) so that the caller can observe
+// the server endpoint.
+func (s *Server) DialTLSArm(arm func(sv *vconn.Conn)) (*Raw, error) {
 	log := &vconn.Log{}
 	c, sv := vconn.Pipe("client", "server", log)
+	if arm != nil {
+		arm(sv)
+	}
 	s.Ln.Inject(tls.Server(sv, s.TLSConf))
 	tc := tls.Client(c, ClientTLSConfig())
 	r := &Raw{C: c, S: sv, Log: log, rw: tc}
 	r.cond = sync.NewCond(&r.mu)
 	if err := tc.Handshake(); err != nil {
-		return nil, err
+		r.HandshakeErr = err
+		r.eof = true
+		return r, err
 	}
 	r.pumpDone = make(chan struct{})
 	go r.pump(tc, 0, r.pumpDone)
